@@ -87,6 +87,49 @@ func (p Path) Build() jp.Expr {
 	return x
 }
 
+// BuildLong builds the same expression with the long-named builder methods (Root, Child, Nth,
+// ...), which are separate functions from the one-letter ones Build uses.
+func (p Path) BuildLong() jp.Expr {
+	var x jp.Expr
+	for _, f := range p {
+		switch f.K {
+		case "root":
+			x = x.Root()
+		case "at":
+			x = x.At()
+		case "bracket":
+			x = x.B()
+		case "child":
+			x = x.Child(f.Key)
+		case "nth":
+			x = x.Nth(f.N)
+		case "wild":
+			x = x.Wildcard()
+		case "descent":
+			x = x.Descent()
+		case "union":
+			keys := make([]any, len(f.U))
+			for i, u := range f.U {
+				if u.Key != nil {
+					keys[i] = *u.Key
+				} else if u.Idx != nil {
+					keys[i] = *u.Idx
+				}
+			}
+			x = x.Union(keys...)
+		case "slice":
+			if len(f.S) == 0 {
+				x = append(x, jp.Slice{})
+			} else {
+				x = x.Slice(f.S[0], f.S[1:]...)
+			}
+		case "filter":
+			x = x.Filter(f.F.Build())
+		}
+	}
+	return x
+}
+
 func (e *Eq) constValue() any {
 	switch e.CK {
 	case "nil":
